@@ -95,7 +95,7 @@ def generate(rng: random.Random, tier: str) -> dict:
                 c["absent"] = True
             c["second"] = rng.random() < 0.2  # a second handshake on the same connection
         clients.append(c)
-    return {"v": 1, "uuid_seed": rng.getrandbits(40), "server_delay": rng.choice([0, 0, 2, 10]), "flush_delay": rng.choice([0, 0, 3, 25]), "clients": clients}
+    return {"v": 1, "server_title": rng.choice([None, None, "Sim Server (display title)"]), "uuid_seed": rng.getrandbits(40), "server_delay": rng.choice([0, 0, 2, 10]), "flush_delay": rng.choice([0, 0, 3, 25]), "clients": clients}
 
 
 def simplify(scn):
@@ -142,6 +142,12 @@ def execute(scn: dict) -> dict:
     async def main(sim):
         server = MCPServer("sim-server")
         ph = server.protocol_handler
+        if scn.get("server_title"):
+            try:
+                ph.server_info.title = scn["server_title"]   # optional display title (2025-06-18); MCPServer itself cannot set it
+                sim.probe("server_info_with_title")
+            except Exception:
+                pass
         st["ph"] = ph
 
         async def server_loop(i, c, c2s_recv, s2c_send):
